@@ -360,22 +360,109 @@ func genItem(t *rapid.T, l string) string { // one element of a ", "-joined list
 	return s
 }
 
-func genLSpec(t *rapid.T, allowHTTP bool) *LSpec {
+// nameFamilies: names that are different strings (the teamserver keeps listeners apart by
+// exact name) but equal under a common "equivalence" a lookup might apply by accident:
+// ASCII / Unicode case, SQL LIKE or glob wildcards vs the literal character, leading or
+// trailing blanks, one name a prefix of the other, Unicode normalisation, SQL quoting.
+var nameFamilies = [][]string{
+	{"internal", "Internal", "INTERNAL", "internal ", " internal"},
+	{"edge-http", "edge_http", "edge%http", "edge?http", "edge*http", "edge http"},
+	{"redirector 100 eu", "redirector 100% eu", "redirector 100_ eu", "redirector 100", "redirector 100%"},
+	{"smb", "smb2", "smb-2", " smb", "smb ", "SMB"},
+	{"caf\u00e9", "cafe\u0301", "CAF\u00c9", "cafe", "Caf\u00e9"},
+	{"o'brien", `o"brien`, "o''brien", "o'brien'--", `o\'brien`, "o%brien"},
+	{"%", "_", "%%", "a%", "a_", "a", "A", "*", "?"},
+	{"Listener-1", "listener-1", "Listener_1", "Listener-10", "Listener-1 ", "Listener-%"},
+}
+
+func genCollidingName(t *rapid.T, fam int, l string) string {
+	switch rapid.IntRange(0, 9).Draw(t, l+"-src") {
+	case 0, 1, 2:
+		return rapid.OneOf(rapid.StringMatching(`[A-Za-z][A-Za-z0-9 _\-]{0,10}`), rapid.SampledFrom([]string{"0123", "1e5", " padded ", "ünï", `q"uote`, "7"})).Draw(t, l)
+	case 3:
+		return rapid.SampledFrom(nameFamilies[rapid.IntRange(0, len(nameFamilies)-1).Draw(t, l+"-fam")]).Draw(t, l)
+	}
+	return rapid.SampledFrom(nameFamilies[fam%len(nameFamilies)]).Draw(t, l)
+}
+
+// genLSpec: fam selects the family of colliding names this history draws most of its
+// listener names (and some pipe names / endpoints) from, so that two of them meet.
+func genLSpec(t *rapid.T, allowHTTP bool, fam int) *LSpec {
 	kinds := []string{"smb", "smb", "smb", "smb", "smb", "smb", "smb", "smb", "smb", "ext", "ext", "ext", "ext", "ext", "ext", "ext", "ext", "ext", "ext"}
 	if allowHTTP {
 		kinds = append(kinds, "http")
 	}
 	l := &LSpec{Kind: rapid.SampledFrom(kinds).Draw(t, "lkind")}
-	l.Name = rapid.OneOf(rapid.StringMatching(`[A-Za-z][A-Za-z0-9 _\-]{0,10}`), rapid.SampledFrom([]string{"0123", "1e5", " padded ", "ünï", `q"uote`, "7"})).Draw(t, "lname")
+	l.Name = genCollidingName(t, fam, "lname")
+	val := func(lbl string) string {
+		if rapid.IntRange(0, 2).Draw(t, lbl+"-colliding") == 0 {
+			return genCollidingName(t, fam, lbl)
+		}
+		return genStr(t, lbl)
+	}
 	switch l.Kind {
 	case "smb":
-		l.Pipe = genStr(t, "pipe")
+		l.Pipe = val("pipe")
 	case "ext":
-		l.Endpoint = genStr(t, "endpoint")
+		l.Endpoint = val("endpoint")
 	case "http":
 		l.HTTP = genHTTP(t)
 	}
 	return l
+}
+
+// likeMatch: SQL LIKE as sqlite evaluates it by default (ASCII case-insensitive, _ one character, % any run).
+func likeMatch(pat, s string) bool {
+	p, r := []rune(strings.ToLower(pat)), []rune(strings.ToLower(s))
+	var rec func(i, j int) bool
+	rec = func(i, j int) bool {
+		for i < len(p) {
+			switch p[i] {
+			case '%':
+				for k := j; k <= len(r); k++ {
+					if rec(i+1, k) {
+						return true
+					}
+				}
+				return false
+			case '_':
+				if j >= len(r) {
+					return false
+				}
+			default:
+				if j >= len(r) || p[i] != r[j] {
+					return false
+				}
+			}
+			i++
+			j++
+		}
+		return j == len(r)
+	}
+	return rec(0, 0)
+}
+
+// collKey folds the equivalences of nameFamilies.
+func collKey(n string) string {
+	n = strings.ReplaceAll(n, "e\u0301", "\u00e9")
+	n = strings.ToLower(strings.TrimSpace(n))
+	n = strings.Map(func(r rune) rune {
+		switch r {
+		case '_', '%', '*', '?', '-', ' ':
+			return '_'
+		case '\'', '"', '\\':
+			return -1
+		}
+		return r
+	}, n)
+	return n
+}
+
+func namesCollide(a, b string) bool {
+	if a == b {
+		return false
+	}
+	return collKey(a) == collKey(b) || likeMatch(a, b) || likeMatch(b, a) || strings.HasPrefix(a, b) || strings.HasPrefix(b, a)
 }
 
 func genHTTP(t *rapid.T) *HTTPSpec {
@@ -409,11 +496,12 @@ var opKinds = []string{
 
 func genOps(t *rapid.T, n, nagents int, allowHTTP bool) []Op {
 	var ops []Op
+	fam := rapid.IntRange(0, len(nameFamilies)-1).Draw(t, "name-family")
 	for i := 0; i < n; i++ {
 		op := Op{K: rapid.SampledFrom(opKinds).Draw(t, "kind")}
 		switch op.K {
 		case "ladd":
-			op.L = genLSpec(t, allowHTTP)
+			op.L = genLSpec(t, allowHTTP, fam)
 		case "ledit":
 			if !allowHTTP {
 				op.K = "poll"
@@ -466,7 +554,7 @@ type hsum struct {
 	death, linkAdd, linkDel, numeric, hiID, reparent bool
 	numClass                                         string
 	lkinds                                           map[string]bool
-	ledit, lremove, checkin, markalive               bool
+	ledit, lremove, checkin, markalive, lcollide      bool
 	effective                                        int
 }
 
@@ -523,6 +611,11 @@ func summarizeH(h History) hsum {
 				}
 			}
 			if !dup {
+				for _, n := range lnames {
+					if namesCollide(n, op.L.Name) {
+						s.lcollide = true // two listeners present at the same time whose names meet under an equivalence
+					}
+				}
 				lnames = append(lnames, op.L.Name)
 				lk = append(lk, op.L.Kind)
 				s.lkinds[op.L.Kind] = true
@@ -638,6 +731,7 @@ func classifyH(h History) core.Class {
 	add(s.markalive, "markalive")
 	add(s.ledit, "listener-edit")
 	add(s.lremove, "listener-removed")
+	add(s.lcollide, "listener-names-colliding")
 	add(h.Existed, "db-existed")
 	var lk []string
 	for k := range s.lkinds {
@@ -675,7 +769,7 @@ func classifyH(h History) core.Class {
 	if s.linkDel {
 		link = "add+remove"
 	}
-	cl.Fingerprint = fmt.Sprintf("death=%v|link=%s|num=%s|listeners=%s|edit=%v|hi=%v", s.death, link, s.numClass, strings.Join(lk, "+"), s.ledit, s.hiID)
+	cl.Fingerprint = fmt.Sprintf("death=%v|link=%s|num=%s|listeners=%s|edit=%v|hi=%v|collide=%v", s.death, link, s.numClass, strings.Join(lk, "+"), s.ledit, s.hiID, s.lcollide)
 	return cl
 }
 
@@ -694,7 +788,7 @@ func dedup(in []string) []string {
 func TestC10a(t *testing.T) {
 	core.Run(t, core.Spec[History]{
 		Property: "C10", Sub: "a",
-		Rule: "histories of 1-5 registrations followed by 0-25 operations over 1-5 agents (ids over the whole 32-bit range incl. >= 2^31; metadata strings from {plain, digit-only, leading zeros, exponent-like, hex-like, whitespace-padded, empty, non-ASCII, quotes/SQL, decimal/signed/huge numbers, 300-9000 bytes}): reg, poll, pivot connect/disconnect, COMMAND_CHECKIN with new metadata and key, sleep / kill-date / working-hours callbacks, exit, kill-date, operator mark dead/alive, listener add (SMB, External; HTTP on an ephemeral port at ~1/20 of adds) / remove / HTTP edit through the operator's DispatchEvent path; then a fresh db.DatabaseNew on the same file read with AgentAll/ParentOf/LinksOf/ListenerAll. Oracle: restored agents == active sessions of the running server, 25 columns equal byte for byte incl. key and IV; ParentOf/LinksOf == the server's Links lists; listener rows == listeners present with every operator-configured field equal. Non-trivial: a death, a link change or a numeric-looking string before the reopen; distinct = (death, link none/add/add+remove, numeric class, listener kinds, edit, id>=2^31)",
+		Rule: "histories of 1-5 registrations followed by 0-25 operations over 1-5 agents (ids over the whole 32-bit range incl. >= 2^31; metadata strings from {plain, digit-only, leading zeros, exponent-like, hex-like, whitespace-padded, empty, non-ASCII, quotes/SQL, decimal/signed/huge numbers, 300-9000 bytes}): reg, poll, pivot connect/disconnect, COMMAND_CHECKIN with new metadata and key, sleep / kill-date / working-hours callbacks, exit, kill-date, operator mark dead/alive, listener add (SMB, External; HTTP on an ephemeral port at ~1/20 of adds; names, and a third of the pipe names / endpoints, mostly from one per-history family of strings that differ but collide under ASCII/Unicode case, LIKE/glob wildcards vs literal characters, leading/trailing blanks, prefixes, Unicode normalisation or SQL quoting - label listener-names-colliding = two such listeners coexist) / remove / HTTP edit through the operator's DispatchEvent path; then a fresh db.DatabaseNew on the same file read with AgentAll/ParentOf/LinksOf/ListenerAll. Oracle: restored agents == active sessions of the running server, 25 columns equal byte for byte incl. key and IV; ParentOf/LinksOf == the server's Links lists; listener rows == listeners present with every operator-configured field equal. Non-trivial: a death, a link change or a numeric-looking string before the reopen; distinct = (death, link none/add/add+remove, numeric class, listener kinds, edit, id>=2^31)",
 		Gen:   genA, Check: checkA, Classify: classifyH,
 		Assumptions: []string{
 			"reference for 'what had happened' is the state the running server holds in memory when the last operation returned; callbacks are delivered through agent.TaskDispatch, registrations and polls through handlers.(*External).Request",
